@@ -63,6 +63,11 @@ def step (t : List String) : String :=
     | some sc, some (s0 :: v0 :: mu :: kappa :: theta :: sigma :: rho :: dt :: ns) =>
       showFloats (hestonPath opsF sc s0 v0 mu kappa theta sigma rho dt (pairs ns))
     | _, _ => "bad-op"
+  | "HESQ" :: rest =>
+    match floats? rest with
+    | some (s0 :: v0 :: mu :: kappa :: theta :: sigma :: rho :: dt :: ns) =>
+      showFloats (hestonPathQE opsF s0 v0 mu kappa theta sigma rho dt (quads ns))
+    | _ => "bad-op"
   | "HESV" :: scheme :: isCall :: nsteps :: rest =>
     match nat? scheme, nat? isCall, nat? nsteps, floats? rest with
     | some sc, some ic, some nst, some (k :: df :: s0 :: v0 :: mu :: kappa :: theta :: sigma :: rho :: dt :: ns) =>
